@@ -441,6 +441,49 @@ func checkC18(w *World, r *Report) {
 				}
 			}
 		}
+		groupingMaps := func(g *ssa.Function) []*ssa.MakeMap {
+			var out []*ssa.MakeMap
+			for _, b := range g.Blocks {
+				for _, in := range b.Instrs {
+					if mm, ok := in.(*ssa.MakeMap); ok {
+						if mt, ok := mm.Type().Underlying().(*types.Map); ok {
+							if _, isSlice := mt.Elem().Underlying().(*types.Slice); isSlice {
+								out = append(out, mm)
+							}
+						}
+					}
+				}
+			}
+			return out
+		}
+		if len(maps) == 0 {
+			// built by a helper that is called once per unique statement and hands back the table it made
+			for _, b := range fn.Blocks {
+				for _, in := range b.Instrs {
+					c, ok := in.(*ssa.Call)
+					if !ok {
+						continue
+					}
+					h := c.Call.StaticCallee()
+					if h == nil || h.Blocks == nil || h.Pkg != fn.Pkg {
+						continue
+					}
+					hm := groupingMaps(h)
+					if len(hm) != 1 {
+						continue
+					}
+					returned := true
+					for _, hb := range h.Blocks {
+						if ret, isRet := hb.Instrs[len(hb.Instrs)-1].(*ssa.Return); isRet {
+							returned = returned && len(ret.Results) == 1 && unspill(ret.Results[0]) == ssa.Value(hm[0])
+						}
+					}
+					_, inLoop := loopOf(fn, b)
+					r.Check(returned && inLoop, "R18.4", "checkUnique grouping table", c.Pos(), "made afresh by "+h.Name()+", called inside the loop over the unique statements", "one grouping table is shared by all unique statements of the list: a value of one unique leaf that coincides with a value of another is reported as a violation, and real violations are reported repeatedly")
+					return
+				}
+			}
+		}
 		if len(maps) != 1 {
 			r.Fail("R18.4", "checkUnique grouping table", fn.Pos(), fmt.Sprintf("expected one grouping map, found %d", len(maps)))
 			return
